@@ -8,6 +8,8 @@ mod source;
 mod pkgname;
 mod testconfig;
 mod asyncfilter;
+mod witfeatures;
+mod runmatrix;
 
 fn main() -> Result<()> {
     let args: Vec<String> = std::env::args().collect();
@@ -16,6 +18,8 @@ fn main() -> Result<()> {
     }
     let rest = &args[3..];
     match (args[1].as_str(), args[2].as_str()) {
+        ("runmatrix", _) => runmatrix::run(&args[2], &args[3], args.get(4).map(|s| s.parse().unwrap()).unwrap_or(14)),
+        ("witfeatures", _) => witfeatures::run(&args[2..]),
         ("ns", "replay") => ns::replay(&rest[0], &rest[1]),
         ("ns", "record") => ns::record(rest[0].parse()?, rest[1].parse()?, &rest[2]),
         ("source", "replay") => source::replay(&rest[0], &rest[1]),
